@@ -7,6 +7,20 @@ HERE = os.path.dirname(os.path.dirname(os.path.abspath(__file__)))
 
 # id -> (category, technique, text, note, design_ref)
 CLAIMED = {
+    "C08": (
+        "model_checking",
+        "explicit-state BFS over engine/program histories (each state rebuilt by replaying its history on a fresh real Engine), reference register model, invariant after every event and every run",
+        "Breadth-first search over histories of New(1), New(2), Del of one/two modes, tagging preparation, swap, measurement, illegal uses of deleted/unknown/stale references, segment boundaries (run + successor program) and probes with a fresh integer-register program, on the Gaussian, bosonic and Fock engines (quick: 2.2e5 transitions, depth 4-5, up to 3 segments). After every event Program.register equals the reference dict index -> (alive, tag); after every run backend.get_modes(), state.num_modes, mode_names and each mode's own displacement equal the reference; invalid uses raise RegRefError/ValueError/IndexError and change nothing.",
+        "Index cap 5-6, at most 4 (Fock 3) active modes, 3 segments. numpy.random owned by the harness (default answers). Known finding: the bosonic simulator restarts at every segment.",
+        "DESIGN.md section 4 (C08)",
+    ),
+    "C09": (
+        "model_checking",
+        "explicit-state BFS over engine call histories with a differential oracle (state reached through any history == one fresh run of the concatenated program) and deep snapshots of all user programs",
+        "Breadth-first search over histories of run(P), run([P, Q]), compile-then-run, run with optimize, reset(), runs that raise midway, on Gaussian, Fock and bosonic engines with six program fragments (daggered composites, free parameters bound through args, post-selected homodyne with feed-forward, New/Del, loss). After every call the engine state equals that of a fresh engine running all fragments since the last reset as one program, re-running the same Program object reproduces it, and every user program's snapshot (command/operation/parameter identities and values, dagger, select, registers) is unchanged - also after a failed run and after compile.",
+        "Fragments from a fixed library of 6 (+2 raising); up to 3-4 fragments since reset, depth 3-4. Snapshot excludes what running is documented to set (locked, bound values, RegRef.val).",
+        "DESIGN.md section 4 (C09)",
+    ),
     "C01": (
         "model_checking",
         "explicit-state BFS over live simulator backends (real Operation.apply on deep copies), canonical-hash dedup, reference-model comparison on every transition",
